@@ -235,6 +235,24 @@ pub fn ref_statement_of(p: &Params, m: usize, commitments: &[P], promises: &[Opt
     }
 }
 
+thread_local! {
+    static DOC_GENS: RefCell<HashMap<(usize, usize), (Vec<P>, Vec<P>)>> = RefCell::new(HashMap::new());
+}
+
+/// Reference statement over the vector generators *as the documentation derives them* (independent of what the
+/// library object holds): used where the published relation itself is the oracle (C02)
+pub fn ref_statement_documented(p: &Params, m: usize, commitments: &[P], promises: &[Option<u64>]) -> RefStatement<P> {
+    let n = p.bit_length();
+    let (gv, hv) = DOC_GENS.with(|c| {
+        let mut c = c.borrow_mut();
+        if c.len() > 32 {
+            c.clear();
+        }
+        c.entry((n, m)).or_insert_with(|| refbp::ref_vector_gens::<P>(n, m)).clone()
+    });
+    RefStatement { h: p.h_base().clone(), g: p.g_bases().to_vec(), gv, hv, n, commitments: commitments.to_vec(), promises: promises.to_vec() }
+}
+
 /// Verify one triple with a fresh copy of the transcript
 pub fn verify_one(t: &Transcript, st: &Stmt, proof: &Proof, action: VerifyAction) -> Result<Option<ExtendedMask>, ProofError> {
     let mut r = RangeProof::verify_batch(&mut [t.clone()], std::slice::from_ref(st), std::slice::from_ref(proof), action)?;
@@ -393,6 +411,8 @@ pub struct Altered {
     pub st: Stmt,
     pub proof: Proof,
     pub rst: RefStatement<P>,
+    /// the same statement over the vector generators as documented (for C02)
+    pub rst_doc: RefStatement<P>,
     pub parts: Parts,
 }
 
@@ -415,7 +435,8 @@ pub fn apply_mutation(case: &Case, orig: &Proof, parts: &Parts, seed: Option<Sca
     let proof = if matches!(mu.alter, Alter::Proof(_)) { p.to_proof().map_err(|e| format!("decode: {e}"))? } else { orig.clone() };
     let st = RangeStatement::init(prm.clone(), commitments.clone(), promises.clone(), seed).map_err(|e| format!("statement: {e}"))?;
     let rst = ref_statement_of(&prm, commitments.len(), &commitments, &promises);
-    Ok(Altered { t: ctx.transcript(), st, proof, rst, parts: p })
+    let rst_doc = ref_statement_documented(&prm, commitments.len(), &commitments, &promises);
+    Ok(Altered { t: ctx.transcript(), st, proof, rst, rst_doc, parts: p })
 }
 
 fn pushm(v: &mut Vec<Mutation>, name: String, alter: Alter) {
